@@ -56,6 +56,16 @@ pub struct Gate {
     pub entered: Mutex<usize>,
     /// connection numbers (query `c=<i>`) whose handler has started: evidence that the request was received
     pub started: Mutex<std::collections::BTreeSet<usize>>,
+    /// set when the scenario is over: whatever the starter keeps alive for it (the tokio runtime) can go
+    pub finished: std::sync::atomic::AtomicBool,
+}
+
+/// sets `Gate::finished` when the scenario function returns, on every path
+struct FinishOnDrop(Arc<Gate>);
+impl Drop for FinishOnDrop {
+    fn drop(&mut self) {
+        self.0.finished.store(true, std::sync::atomic::Ordering::SeqCst);
+    }
 }
 
 /// what a runtime-specific starter returns: the channel on which `run`'s result arrives and the shutdown signal
@@ -174,7 +184,7 @@ pub fn fd_worker(args: &[String]) -> i32 {
     if unsafe { libc::setrlimit(libc::RLIMIT_NOFILE, &lim) } != 0 {
         return 2;
     }
-    let gate = Arc::new(Gate { open: Mutex::new(true), cv: Condvar::new(), entered: Mutex::new(0), started: Mutex::new(Default::default()) });
+    let gate = Arc::new(Gate { open: Mutex::new(true), cv: Condvar::new(), entered: Mutex::new(0), started: Mutex::new(Default::default()), finished: std::sync::atomic::AtomicBool::new(false) });
     let st = start_sync(2, gate, addr, false);
     let t0 = Instant::now();
     loop {
@@ -253,7 +263,8 @@ pub fn run_scenario(s: &Scenario, shard: usize) -> Vec<Fail> {
 }
 
 pub fn run_scenario2(s: &Scenario, shard: usize, ctx: Option<&Ctx>, start: StartFn, port_base: u16) -> Vec<Fail> {
-    let gate = Arc::new(Gate { open: Mutex::new(false), cv: Condvar::new(), entered: Mutex::new(0), started: Mutex::new(Default::default()) });
+    let gate = Arc::new(Gate { open: Mutex::new(false), cv: Condvar::new(), entered: Mutex::new(0), started: Mutex::new(Default::default()), finished: std::sync::atomic::AtomicBool::new(false) });
+    let _finish = FinishOnDrop(gate.clone());
     let (bind_ip, connect_ip) = match s.bind % 3 {
         0 => (format!("127.0.20.{}", 1 + shard), format!("127.0.20.{}", 1 + shard)),
         1 => ("0.0.0.0".to_string(), format!("127.0.20.{}", 1 + shard)),
